@@ -300,6 +300,46 @@ pub fn check(ctx: &Ctx) -> i32 {
     });
     tally.merge(t2b);
 
+    // unit-count scaling: access units of many short units (multi-slice pictures, SEI runs). Every
+    // start-code assignment for up to 8 units, four regular patterns up to 40 units; unit bodies
+    // of 1, 2 or 1-3 bytes; with and without leading junk and trailing zeros. Output-size
+    // estimates and per-unit bookkeeping have their thresholds in the number of units.
+    let counts: Vec<usize> = (1..=40).collect();
+    let t2c = par_items(&counts, ctx.seed, |idx, &n, t| {
+        let mut k = 0u64;
+        let masks: Vec<u64> = if n <= 8 { (0..(1u64 << n)).collect() } else { vec![0, u64::MAX, 0xaaaa_aaaa_aaaa_aaaa, 1] };
+        for &mask in &masks {
+            for bodies in 0..3usize {
+                for junk in [0usize, 1] {
+                    for trail in [0usize, 2] {
+                        let mut s = vec![0x09; junk];
+                        for i in 0..n {
+                            if (mask >> i) & 1 == 1 {
+                                s.extend_from_slice(&[0, 0, 0, 1]);
+                            } else {
+                                s.extend_from_slice(&[0, 0, 1]);
+                            }
+                            let len = match bodies {
+                                0 => 1,
+                                1 => 2,
+                                _ => 1 + i % 3,
+                            };
+                            s.extend((0..len).map(|j| 0x41 + ((i + j) % 0x30) as u8));
+                        }
+                        s.extend(std::iter::repeat(0u8).take(trail));
+                        k += 1;
+                        t.count("unit_count_strings", 1);
+                        judge_string(&s, (17_000 + idx as u64, k), t);
+                        if junk == 0 {
+                            judge_through_muxer(&s, (17_000 + idx as u64, k), t);
+                        }
+                    }
+                }
+            }
+        }
+    });
+    tally.merge(t2c);
+
     // ADTS: every 13-bit frame length x protection x buffer length x header-field variant
     let mut aitems = vec![];
     for protected in [false, true] {
@@ -380,7 +420,7 @@ pub fn check(ctx: &Ctx) -> i32 {
         &tally,
         Meta {
             level: "exploration",
-            rule: format!("every byte string of length <= {l3} over {{00,01,02}} and <= {l5} over {{00,01,03,65,FF}} through AnnexBNalIter, annexb_to_avcc and hevc_annexb_to_hvcc, compared with a reference splitter written from the statement (occurrences of 00 00 01, each absorbing one preceding unconsumed 00); every string of length <= {mux_len} over {{00,01,02}} additionally submitted as a delta frame to an H.264 and an H.265 muxer and the stored sample read back; {ncons} constructive inputs (all lists of <= 3 units over bodies {{1 byte, ending 00, ending 00 00, containing 00 00 03, empty}} x 3/4-byte start code per unit x leading {{none, 09, 00, 00 00}} x 0-2 trailing zeros); a scaling family (first unit of every length 1..={scale_n} x 3 fillers x 3/4-byte start codes x 0-2 junk bytes, through the converters and the muxers); ADTS: all 8192 frame lengths x protection flag x buffer length {{fl-1, fl, fl+1, fl+9}} x 3 header-field variants through write_audio + finish, stored sample read back; 108 pairs of ADTS frames in one stream (protection x header variant x length for either frame). Distinct by output bytes."),
+            rule: format!("every byte string of length <= {l3} over {{00,01,02}} and <= {l5} over {{00,01,03,65,FF}} through AnnexBNalIter, annexb_to_avcc and hevc_annexb_to_hvcc, compared with a reference splitter written from the statement (occurrences of 00 00 01, each absorbing one preceding unconsumed 00); every string of length <= {mux_len} over {{00,01,02}} additionally submitted as a delta frame to an H.264 and an H.265 muxer and the stored sample read back; {ncons} constructive inputs (all lists of <= 3 units over bodies {{1 byte, ending 00, ending 00 00, containing 00 00 03, empty}} x 3/4-byte start code per unit x leading {{none, 09, 00, 00 00}} x 0-2 trailing zeros); a scaling family (first unit of every length 1..={scale_n} x 3 fillers x 3/4-byte start codes x 0-2 junk bytes, through the converters and the muxers); a unit-count family (1..=40 short units; every 3/4-byte start-code assignment up to 8 units, four regular patterns beyond; 3 body-length patterns; with/without leading junk and trailing zeros); ADTS: all 8192 frame lengths x protection flag x buffer length {{fl-1, fl, fl+1, fl+9}} x 3 header-field variants through write_audio + finish, stored sample read back; 108 pairs of ADTS frames in one stream (protection x header variant x length for either frame). Distinct by output bytes."),
             bound: format!("strings <= {l3} / {l5} bytes; unit lengths 1..={scale_n}; ADTS exhaustive in frame length"),
             exhaustive: true,
             assumptions: vec!["the reference splitter (oracle/src/refmodel.rs) is the statement's definition".into()],
